@@ -7,7 +7,10 @@ use ntp_proto::{
 use tracing::debug;
 use tracing::{Instrument, Span, error, instrument};
 
+#[cfg(not(pendulum_project_ntpd_rs_verif))]
 use tokio::net::UnixDatagram;
+#[cfg(pendulum_project_ntpd_rs_verif)]
+use crate::daemon::verif::sock::UnixDatagram;
 
 use crate::daemon::exitcode;
 
